@@ -96,4 +96,12 @@ TEXT = {
          "coverage-guided fuzz target is not part of the registered commands (Go's fuzzer cannot be seeded).",
  'technique': 'property-based testing (rapid): structured mutation of valid responses + hostile constant catalogues; safety oracle, metamorphic status→code '
               'relation, case-insensitivity relation'},
+    'C07': {'text': 'Exploration: valid reference requests with exactly one fault of nine classes applied at a chosen message position, plus arbitrary requests; served '
+         'synchronously in a bubble. The response must be strictly well-formed for the protocol selected by the Content-Type according to the independent '
+         'reference decoder (or a bare 405/415/505), user code runs at most once and only ever sees intact sent messages, and each fault class maps to its '
+         'documented code, never to success.',
+ 'design_ref': 'DESIGN.md §5 C07',
+ 'note': 'Trusted: refwire as strict response parser and as builder of the valid starting points; memnet.Serve.',
+ 'technique': 'property-based testing (rapid): single-fault injection into valid requests with a per-class code oracle; strict reference decoder as '
+              'well-formedness oracle; prefix rule for delivered messages'},
 }
